@@ -173,8 +173,11 @@ class Bridge(IoMixin):
                 np.array(v, dtype=np.int64).astype(np.uint32)
         return self._i(self.L.akb_index(KIND[k], total.ctypes.data, len(total), pre, len(v)))
 
-    def build(self, d):
-        """descriptor -> Content handle (no validation is added)."""
+    def build(self, d, subst=None):
+        """descriptor -> Content handle (no validation is added); subst = {id(descriptor node): handle} puts existing
+        handles (e.g. a VirtualArray) in place of the nodes named"""
+        if subst and id(d) in subst:
+            return subst[id(d)]
         c = d["c"]
         L = self.L
         if c == "NumpyArray":
@@ -187,39 +190,39 @@ class Bridge(IoMixin):
         elif c == "EmptyArray":
             h = self._c(L.akb_empty())
         elif c == "RegularArray":
-            ch = self.build(d["content"])
+            ch = self.build(d["content"], subst)
             h = self._c(L.akb_regular(ch.p, d["size"], d.get("length", 0)))
         elif c == "ListOffsetArray":
-            ch = self.build(d["content"])
+            ch = self.build(d["content"], subst)
             oh = self.index(d["offsets"])
             h = self._c(L.akb_listoffset(oh.p, ch.p))
         elif c == "ListArray":
-            ch = self.build(d["content"])
+            ch = self.build(d["content"], subst)
             a, b = self.index(d["starts"]), self.index(d["stops"])
             h = self._c(L.akb_list(a.p, b.p, ch.p))
         elif c in ("IndexedArray", "IndexedOptionArray"):
-            ch = self.build(d["content"])
+            ch = self.build(d["content"], subst)
             ih = self.index(d["index"])
             h = self._c(L.akb_indexed(ih.p, ch.p, 1 if c == "IndexedOptionArray" else 0))
         elif c == "ByteMaskedArray":
-            ch = self.build(d["content"])
+            ch = self.build(d["content"], subst)
             mh = self.index(d["mask"])
             h = self._c(L.akb_bytemasked(mh.p, ch.p, 1 if d["valid_when"] else 0))
         elif c == "BitMaskedArray":
-            ch = self.build(d["content"])
+            ch = self.build(d["content"], subst)
             mh = self.index(d["mask"])
             h = self._c(L.akb_bitmasked(mh.p, ch.p, 1 if d["valid_when"] else 0, d["length"],
                                         1 if d["lsb_order"] else 0))
         elif c == "UnmaskedArray":
-            ch = self.build(d["content"])
+            ch = self.build(d["content"], subst)
             h = self._c(L.akb_unmasked(ch.p))
         elif c == "RecordArray":
-            chs = [self.build(x) for x in d["contents"]]
+            chs = [self.build(x, subst) for x in d["contents"]]
             arr = (c_void_p * max(1, len(chs)))(*[x.p for x in chs])
             keys = None if d["keys"] is None else _cstrs(d["keys"])
             h = self._c(L.akb_record(arr, len(chs), keys, d["length"]))
         elif c == "UnionArray":
-            chs = [self.build(x) for x in d["contents"]]
+            chs = [self.build(x, subst) for x in d["contents"]]
             arr = (c_void_p * max(1, len(chs)))(*[x.p for x in chs])
             th, ih = self.index(d["tags"]), self.index(d["index"])
             h = self._c(L.akb_union(th.p, ih.p, arr, len(chs)))
